@@ -10,8 +10,10 @@ import re
 import shutil
 import sys
 
-RES = '/tmp/mut/results'
+RES = sys.argv[1] if len(sys.argv) > 1 else '/tmp/mut/results'
 OUT = '/verif/seeded'
+SRC_PREFIX = sys.argv[2] if len(sys.argv) > 2 else 'C'     # worktree directory prefix under /tmp/mut
+NAME_PREFIX = sys.argv[3] if len(sys.argv) > 3 else ''       # prefix of the directory under seeded/
 
 
 def first_paragraphs(readme, n=1200):
@@ -27,7 +29,7 @@ def main():
     needs = json.load(open(os.path.join(OUT, 'needs.json'))) if os.path.exists(os.path.join(OUT, 'needs.json')) else {}
     kept = []
     for f in sorted(os.listdir(RES)):
-        m = re.match(r'(C\d\d)_(\d)(?:\.[a-z]+)?\.json$', f)
+        m = re.match(r'(C\d\d)_(\d)(?:\.[a-z0-9]+)?\.json$', f)
         if not m:
             continue
         pid, k = m.group(1), m.group(2)
@@ -36,14 +38,24 @@ def main():
         except Exception:
             continue
         if 'demo_clean_rc' not in d:
-            continue
+            # a re-run with --skip-confirm: take the confirmation from the first run of the same change
+            base = os.path.join(RES, '%s_%s.json' % (pid, k))
+            try:
+                b = json.load(open(base))
+            except Exception:
+                continue
+            for key in ('demo_clean_builds', 'demo_clean_rc', 'demo_mutant_builds', 'demo_mutant_rc', 'suite_passes_with_change', 'patch_applies'):
+                if key in b and (key not in d or key == 'patch_applies'):
+                    d.setdefault(key, b[key])
+            if 'demo_clean_rc' not in d:
+                continue
         confirmed = d.get('patch_applies') and d.get('demo_clean_rc') == 0 and d.get('demo_mutant_builds') is not None and \
             (d.get('demo_mutant_rc') not in (0, None) or d.get('demo_mutant_builds') is False) and d.get('suite_passes_with_change')
         if not confirmed:
             print('NOT CONFIRMED', f, {k2: d.get(k2) for k2 in ('patch_applies', 'demo_clean_rc', 'demo_mutant_rc', 'demo_mutant_builds', 'suite_passes_with_change')})
             continue
-        src = '/tmp/mut/%s/mutant%s' % (pid, k)
-        dst = os.path.join(OUT, '%s-m%s' % (pid, k))
+        src = '/tmp/mut/%s%s/mutant%s' % (SRC_PREFIX, pid[1:], k)
+        dst = os.path.join(OUT, '%s%s-m%s' % (NAME_PREFIX, pid, k))
         os.makedirs(dst, exist_ok=True)
         for name in ('patch.diff', 'demo.cpp', 'README.md'):
             if os.path.exists(os.path.join(src, name)):
@@ -53,7 +65,7 @@ def main():
         meta.update({
             'property': pid,
             'origin': 'written by an independent sub-agent that was given only the property text and a scratch worktree of the library',
-            'what_it_needs_to_manifest': needs.get('%s-m%s' % (pid, k)) or meta.get('what_it_needs_to_manifest') or 'see README.md (written by the author of the change)',
+            'what_it_needs_to_manifest': needs.get('%s%s-m%s' % (NAME_PREFIX, pid, k)) or meta.get('what_it_needs_to_manifest') or 'see README.md (written by the author of the change)',
             'confirmation': {
                 'patch_applies_to_repo_head': True,
                 'demo_exit_status_without_change': d.get('demo_clean_rc'),
@@ -68,7 +80,7 @@ def main():
         meta['check_runs'] = runs
         meta['detected'] = any(r['exit'] == 1 and r['violations'] > 0 for r in runs.values())
         json.dump(meta, open(meta_path, 'w'), indent=1)
-        kept.append((pid, k, meta['detected']))
+        kept.append((NAME_PREFIX + pid, k, meta['detected']))
     for pid, k, det in kept:
         print('%s-m%s %s' % (pid, k, 'DETECTED' if det else 'missed'))
 
